@@ -9,10 +9,9 @@
    rationals); "to numerical precision" of the property shows up only in the zero-determinant statement, where
    the code itself accepts |det| < 5e-13.
 
-   FULL-STRENGTH STATEMENT THAT FAILS (kept as a refuted theorem, see C12_random_function_bound_refuted):
-     forall drawn random functions f and points x,  |f_i(x) - center| <= amplitude.
-   It holds for input_dim = 1 (C12_random_function_unary_within_amplitude); for input_dim >= 2 the code only
-   guarantees amplitude * input_dim (C12_random_function_sound). *)
+   History: before /repo commit 857063e the scaling of RandomFunction divided by num_terms only and the declared
+   bound failed for input_dim >= 2 (two refuted theorems stood here); the model follows the repaired code and
+   C12_random_function_sound is the full bound; the former witnesses are kept as passing examples. *)
 From Coq Require Import ZArith QArith Qabs List Bool Arith Reals Qreals.
 From Verif.Lib Require Import QRound PyNum.
 From Verif.Model Require Import Sampler SamplerMat.
@@ -53,9 +52,10 @@ Theorem C12_bridge_random_function_formulas : forall u,
 Proof. exact (fun u => conj (rf_amp_bridge u) (conj (rf_phase_arg_bridge u) (conj (rf_freq_bridge u) (rf_shift_bridge u)))). Qed.
 Print Assumptions C12_bridge_random_function_formulas.
 
-Theorem C12_bridge_random_function_scaling : forall z amplitude num_terms,
-  ceq (Gen.Sampler.gen_rf_scale (fst z) amplitude num_terms, Gen.Sampler.gen_rf_scale (snd z) amplitude num_terms)
-      (cscale (amplitude / num_terms) z).
+Theorem C12_bridge_random_function_scaling : forall z amplitude num_terms input_dim,
+  ceq (Gen.Sampler.gen_rf_scale (fst z) amplitude num_terms input_dim,
+       Gen.Sampler.gen_rf_scale (snd z) amplitude num_terms input_dim)
+      (cscale (amplitude / (num_terms * input_dim)) z).
 Proof. exact rf_scale_bridge. Qed.
 Print Assumptions C12_bridge_random_function_scaling.
 
@@ -158,69 +158,45 @@ Theorem C12_random_function_coefficients : forall u, 0 <= u < 1 ->
 Proof. exact c12_rf_coefficient_ranges. Qed.
 Print Assumptions C12_random_function_coefficients.
 
-(* declared arity (ConfigError otherwise), declared output dimension, realness, and the bound the code
-   actually guarantees, |f_i(x) - center| <= amplitude * input_dim, for real and complex functions, any
-   input_dim / output_dim / num_terms, any drawn coefficients, any evaluation point *)
+(* declared arity (ConfigError otherwise), declared output dimension, realness, and values within
+   center +/- amplitude, for real and complex functions, every input_dim / output_dim / num_terms, any drawn
+   coefficients, any evaluation point *)
 Theorem C12_random_function_sound :
   forall expi sinv cplx (input_dim output_dim num_terms : nat) center amplitude raw xs,
-  expi_ok expi -> sin_ok sinv -> 0 <= amplitude -> (0 < num_terms)%nat ->
+  expi_ok expi -> sin_ok sinv -> 0 <= amplitude -> (0 < num_terms)%nat -> (0 < input_dim)%nat ->
   rf_shape_ok output_dim num_terms input_dim raw = true -> raw3_ok raw ->
   let f := rf_draw expi cplx raw in
   (rf_eval sinv input_dim center amplitude (Z.of_nat num_terms) f xs = None <-> length xs <> input_dim) /\
   forall ys, rf_eval sinv input_dim center amplitude (Z.of_nat num_terms) f xs = Some ys ->
     length ys = output_dim /\
-    Forall (fun y => cnormsq (csub y center)
-                     <= (amplitude * inject_Z (Z.of_nat input_dim)) * (amplitude * inject_Z (Z.of_nat input_dim))) ys /\
+    Forall (fun y => cnormsq (csub y center) <= amplitude * amplitude) ys /\
     (cplx = false -> creal center -> Forall creal ys).
 Proof. exact rf_sample_sound. Qed.
 Print Assumptions C12_random_function_sound.
 
-Theorem C12_random_function_unary_within_amplitude :
-  forall expi sinv cplx (output_dim num_terms : nat) center amplitude raw xs ys,
-  expi_ok expi -> sin_ok sinv -> 0 <= amplitude -> (0 < num_terms)%nat ->
-  rf_shape_ok output_dim num_terms 1 raw = true -> raw3_ok raw ->
-  rf_eval sinv 1 center amplitude (Z.of_nat num_terms) (rf_draw expi cplx raw) xs = Some ys ->
-  Forall (fun y => cnormsq (csub y center) <= amplitude * amplitude) ys.
-Proof. exact rf_unary_bound. Qed.
-Print Assumptions C12_random_function_unary_within_amplitude.
-
-(* the statement of the property for every input_dim is FALSE of the faithful model: input_dim = 2, one term,
-   amplitude 1, center 0, raw draws (A, B, C) = (0.5, 0.5, 0.25) twice give f(x1, x2) = 1.5; the only oracle
-   answer consulted is np.sin(np.pi/2) = 1.0 *)
-Theorem C12_random_function_bound_refuted :
-  exists expi sinv cplx (input_dim output_dim num_terms : nat) center amplitude raw xs ys,
-    expi_ok expi /\ sin_ok sinv /\ 0 <= amplitude /\ (0 < num_terms)%nat /\
-    rf_shape_ok output_dim num_terms input_dim raw = true /\ raw3_ok raw /\
-    rf_eval sinv input_dim center amplitude (Z.of_nat num_terms) (rf_draw expi cplx raw) xs = Some ys /\
-    ~ Forall (fun y => cnormsq (csub y center) <= amplitude * amplitude) ys.
-Proof. exact rf_bound_refuted. Qed.
-Print Assumptions C12_random_function_bound_refuted.
-
-(* the same three facts with the genuine sine over the reals (real-valued functions, rational points) *)
+(* the same bound with the genuine sine over the reals (real-valued functions, rational points) *)
 Theorem C12_random_function_real_sine : forall expi (input_dim output_dim num_terms : nat) center amplitude raw xs,
-  0 <= amplitude -> (0 < num_terms)%nat ->
+  0 <= amplitude -> (0 < num_terms)%nat -> (0 < input_dim)%nat ->
   rf_shape_ok output_dim num_terms input_dim raw = true -> raw3_ok raw ->
-  Forall (fun rows => (Rabs (rfR_component center amplitude num_terms rows xs - Q2R center)
-                       <= Q2R amplitude * INR input_dim)%R) (rf_draw expi false raw).
+  Forall (fun rows => (Q2R center - Q2R amplitude <= rfR_component input_dim center amplitude num_terms rows xs
+                       <= Q2R center + Q2R amplitude)%R) (rf_draw expi false raw).
 Proof. exact rf_real_sound. Qed.
 Print Assumptions C12_random_function_real_sine.
 
-Theorem C12_random_function_real_sine_unary : forall expi (output_dim num_terms : nat) center amplitude raw xs,
-  0 <= amplitude -> (0 < num_terms)%nat ->
-  rf_shape_ok output_dim num_terms 1 raw = true -> raw3_ok raw ->
-  Forall (fun rows => (Q2R center - Q2R amplitude <= rfR_component center amplitude num_terms rows xs
-                       <= Q2R center + Q2R amplitude)%R) (rf_draw expi false raw).
-Proof. exact rf_real_unary. Qed.
-Print Assumptions C12_random_function_real_sine_unary.
+(* regression: the draws that violated the bound before the repair *)
+Example C12_ex_random_function_former_witness :
+  sin_ok rf_witness_sin /\ raw3_ok rf_witness_raw /\ rf_shape_ok 1 1 2 rf_witness_raw = true /\
+  match rf_eval rf_witness_sin 2 c0 1 1 (rf_draw (fun _ => c1) false rf_witness_raw) [3; -7] with
+  | Some [y] => ceq y (3 # 4, 0)
+  | _ => False
+  end.
+Proof. exact rf_former_witness. Qed.
+Print Assumptions C12_ex_random_function_former_witness.
 
-Theorem C12_random_function_real_sine_bound_refuted :
-  exists expi (input_dim output_dim num_terms : nat) center amplitude raw xs,
-    0 <= amplitude /\ (0 < num_terms)%nat /\
-    rf_shape_ok output_dim num_terms input_dim raw = true /\ raw3_ok raw /\ length xs = input_dim /\
-    ~ Forall (fun rows => (Q2R center - Q2R amplitude <= rfR_component center amplitude num_terms rows xs
-                           <= Q2R center + Q2R amplitude)%R) (rf_draw expi false raw).
-Proof. exact rf_real_bound_refuted. Qed.
-Print Assumptions C12_random_function_real_sine_bound_refuted.
+Example C12_ex_random_function_former_witness_real_sine : forall xs,
+  Forall (fun rows => (-1 <= rfR_component 3 0 1 1 rows xs <= 1)%R) (rf_draw (fun _ => c1) false rfR_witness_raw).
+Proof. exact rf_real_former_witness. Qed.
+Print Assumptions C12_ex_random_function_former_witness_real_sine.
 
 (* ---------------------------------------------------------------------------------------------- *)
 (* vectors, matrices, tensors (flattened n x m), triangular options, identity multiples            *)
